@@ -16,11 +16,11 @@ const X: TableDefinition<u64, &[u8]> = TableDefinition::new("x");
 const Y: TableDefinition<u64, &[u8]> = TableDefinition::new("y");
 const MM: MultimapTableDefinition<u64, u64> = MultimapTableDefinition::new("mm");
 
-pub const SCENARIOS: [&str; 8] = ["S1", "S2", "S3", "S4", "S7", "S5", "S5p", "S6"];
+pub const SCENARIOS: [&str; 9] = ["S1", "S2", "S3", "S3g", "S4", "S7", "S5", "S5p", "S6"];
 
 pub fn threads_of(scn: &str) -> usize {
     match scn {
-        "S2" | "S3" | "S6" => 2,
+        "S2" | "S3" | "S3g" | "S6" => 2,
         _ => 3,
     }
 }
@@ -330,7 +330,7 @@ fn s2(cache_idx: usize, prefix: &[usize]) -> (ExecResult, Verdict) {
 
 /// page reuse under a live reader: the writer deletes a 3-page value and then inserts another big
 /// value that reuses the pages; the reader reads the old value twice through one read transaction
-fn s3(cache_idx: usize, prefix: &[usize]) -> (ExecResult, Verdict) {
+fn s3(cache_idx: usize, prefix: &[usize], gated: bool) -> (ExecResult, Verdict) {
     let (db, backend) = open_seed(cache_idx);
     let db = Arc::new(db);
     let log = Arc::new(Log::default());
@@ -356,6 +356,7 @@ fn s3(cache_idx: usize, prefix: &[usize]) -> (ExecResult, Verdict) {
                 }
                 log.call(0, "commit", || (wt.commit().unwrap(), format!("{i}")));
             }
+            schedx::sched().gate_open(1);
         }));
     }
     {
@@ -364,6 +365,12 @@ fn s3(cache_idx: usize, prefix: &[usize]) -> (ExecResult, Verdict) {
             let a = schedx::sched().now();
             let rt = db.begin_read().unwrap();
             let b = schedx::sched().now();
+            if gated {
+                // park the reader, holding its snapshot, until the writer has finished all three
+                // commits (freeing and reusing pages): entering any window of a commit then costs
+                // a single preemption
+                schedx::sched().gate_wait(1);
+            }
             let x = rt.open_table(X).unwrap();
             let c = read_counter(&x).unwrap();
             let big = |k: u64| -> i64 {
@@ -740,7 +747,8 @@ pub fn run_once(scn: &str, cache_idx: usize, prefix: &[usize]) -> (ExecResult, V
     match scn {
         "S1" => s1(cache_idx, prefix),
         "S2" => s2(cache_idx, prefix),
-        "S3" => s3(cache_idx, prefix),
+        "S3" => s3(cache_idx, prefix, false),
+        "S3g" => s3(cache_idx, prefix, true),
         "S4" => s4(cache_idx, prefix),
         "S6" => s6(cache_idx, prefix, false),
         "S7" => s6(cache_idx, prefix, true),
